@@ -49,6 +49,8 @@ def split_obs(line):
             d['enc'] = p[4:]
         elif p.startswith('st='):
             d['st'] = p[3:]
+        elif p.startswith('ss='):
+            d['ss'] = p[3:]
         else:
             d.setdefault('extra', []).append(p)
     return d
